@@ -61,6 +61,7 @@ type Config struct {
 	MaxWallS     int // per harness wall-clock budget
 	Witnesses    int // sample this many complete paths as concrete witnesses
 	PermsInInit  bool // also permute ranges executed by package initialisers
+	Deadline     time.Time // whole-property deadline shared by all workers (zero = none)
 }
 
 // Machine executes one harness function over all feasible paths.
@@ -196,6 +197,10 @@ func (m *Machine) explore(fn *ssa.Function) *HarnessResult {
 	m.harnessPkg = fn.Pkg
 	start := time.Now()
 	for {
+		if !m.Cfg.Deadline.IsZero() && time.Now().After(m.Cfg.Deadline) {
+			m.inconclusive("the property's wall-clock budget was exhausted after %d paths of this part (bound too large for this tier)", m.Res.Paths)
+			break
+		}
 		if m.Cfg.MaxWallS > 0 && time.Since(start).Seconds() > float64(m.Cfg.MaxWallS) {
 			m.inconclusive("wall-clock budget of %ds exceeded after %d paths (bound too large for this tier)", m.Cfg.MaxWallS, m.Res.Paths)
 			break
